@@ -21,6 +21,7 @@ import (
 
 	"github.com/csgura/fp"
 	"github.com/csgura/fp/genfp"
+	"github.com/csgura/fp/promise"
 	"pgregory.net/rapid"
 
 	"verifharness/kit"
@@ -166,6 +167,86 @@ func tryInts[T any](o fp.Try[T], f func(T) []int) fp.Try[[]int] {
 		return fp.Failure[[]int](o.Failed().Get())
 	}
 	return fp.Success(f(o.Get()))
+}
+
+// ---- futures -------------------------------------------------------------------------
+//
+// The future members are exercised over already completed futures and without their optional trailing
+// executor argument, i.e. on the default executor. Under build tag verif the default executor offers every
+// task to the hook installed with fp.VerifSetSpawn; runFut installs a hook that appends the task to a queue,
+// runs the call, and then runs the queue in FIFO order until it is empty (tasks may enqueue more tasks). No
+// goroutine is started and nothing waits on the clock: a combinator over completed futures that is not
+// complete once no task is left never completes.
+
+// futTaskBudget bounds the number of tasks one call may spawn (a combinator that keeps re-spawning itself).
+const futTaskBudget = 100000
+
+func runFut(rt *rapid.T, rec *kit.Rec, sig string, call func()) (tasks int) {
+	var q []func()
+	fp.VerifSetSpawn(func(run func()) bool { q = append(q, run); return true })
+	defer fp.VerifSetSpawn(nil)
+	rec.Guard(rt, sig, func() {
+		call()
+		for len(q) > 0 {
+			r := q[0]
+			q[0] = nil
+			q = q[1:]
+			tasks++
+			if tasks > futTaskBudget {
+				panic(kit.FuelExhausted{What: fmt.Sprintf("more than %d executor tasks spawned by one call", futTaskBudget)})
+			}
+			r()
+		}
+	})
+	return tasks
+}
+
+// chkFut: the call's future must be completed, successfully, with the expected positions, once the task
+// queue has run empty.
+func chkFut(rt *rapid.T, rec *kit.Rec, sig string, call func() fp.Future[[]int], want []int) {
+	var got fp.Future[[]int]
+	tasks := runFut(rt, rec, sig, func() { got = call() })
+	if !got.IsCompleted() {
+		rec.Failf(rt, sig, "the future never completes: operands all completed successfully, %d executor tasks run, no task left; want Success(%v)", tasks, want)
+	}
+	r := got.Value()
+	if !r.IsSuccess() {
+		rec.Failf(rt, sig, "future completed with %v for all-successful operands, want Success(%v)", r, want)
+	}
+	if !eqInts(r.Get(), want) {
+		rec.Failf(rt, sig, "future completed with Success(%v), the defining equation gives Success(%v)", r.Get(), want)
+	}
+}
+
+// chkFutUnit: the function under test returns Future[Unit]; the arguments it passed on were recorded into
+// *seen by the callback (which runs as a task of the queue).
+func chkFutUnit(rt *rapid.T, rec *kit.Rec, sig string, call func() fp.Future[fp.Unit], seen *[]int, want []int) {
+	var got fp.Future[fp.Unit]
+	*seen = nil
+	tasks := runFut(rt, rec, sig, func() { got = call() })
+	if !got.IsCompleted() {
+		rec.Failf(rt, sig, "the future never completes: %d executor tasks run, no task left; callback received %v", tasks, *seen)
+	}
+	if r := got.Value(); !r.IsSuccess() {
+		rec.Failf(rt, sig, "future completed with %v for a callback returning nil, want Success(Unit)", r)
+	}
+	if !eqInts(*seen, want) {
+		rec.Failf(rt, sig, "callback received %v, the defining equation gives %v", *seen, want)
+	}
+}
+
+// futInts turns Future[T] into Future[[]int] with the primitives promise.New / OnComplete / Success /
+// Failure only (no combinator of package future). conv runs when f is complete.
+func futInts[T any](f fp.Future[T], conv func(T) []int) fp.Future[[]int] {
+	p := promise.New[[]int]()
+	f.OnComplete(func(t fp.Try[T]) {
+		if t.IsSuccess() {
+			p.Success(conv(t.Get()))
+		} else {
+			p.Failure(t.Failed().Get())
+		}
+	})
+	return p.Future()
 }
 
 func wantString(v []int) string {
